@@ -196,8 +196,11 @@ class Sim:
             if big(r["vol"]) or float(r["multi"] * r["vol"]) > self.wmax * (1 + 1e-12):
                 self.viol.append(f"record {rec!r} dispenses {float(r['vol'])} x {r['multi']} per aspiration, above max_volume {self.wmax}")
             m, d = self.rack(r["src"]), self.rack(r["dst"])
-            # the Fluent source range is the known finding of C01 (EVO-style numbers): decode it EVO-style on both devices
+            # the Fluent source range is the known finding of C01 (EVO-style numbers): decode it EVO-style on both devices,
+            # and accept the Fluent-style single number 1 + column as well
             cavs = {(x - 1) // m.R for x in range(r["s0"], r["s1"] + 1)}
+            if m.flu_tr and r["s0"] == r["s1"] and m.R > 1:
+                cavs = {r["s0"] - 1}
             if len(cavs) != 1 or not m.trough or max(cavs) >= m.C:
                 raise Bad(f"R source range is not one trough column: {rec!r}")
             self.move(m, cavs.pop(), -r["vol"] * len(targets), False, exact, rec)
@@ -830,7 +833,8 @@ def gen_case(rng):
     wl = dict(max_volume=rng.choice(WMAX[grid]), auto_split=rng.random() < 0.5, diti_mode=rng.random() < 0.15)
     specs = gen_labwares(rng, grid, wl["max_volume"])
     ops = []
-    finite = [dict(s, min=0 if s["min"] == "nan" else s["min"], max=1e9 if s["max"] == "nan" else s["max"]) for s in specs]
+    top = lambda s: 2 * max(flatF(s["init"]) + [wl["max_volume"]])  # noqa: E731  (stand-in for a NaN limit, only for the generator)
+    finite = [dict(s, min=0 if s["min"] == "nan" else s["min"], max=top(s) if s["max"] == "nan" else s["max"]) for s in specs]
     ms = [Lw(s, device) for s in finite]
     for m in ms:
         m.lo, m.hi = F(m.lo), F(m.hi)
@@ -988,9 +992,11 @@ def replay(path):
 
 def main():
     if len(sys.argv) >= 3 and sys.argv[1] == "--replay":
-        rc = replay(sys.argv[2])
-        if TMP:
-            shutil.rmtree(TMP, ignore_errors=True)
+        try:
+            rc = replay(sys.argv[2])
+        finally:
+            if TMP:
+                shutil.rmtree(TMP, ignore_errors=True)
         sys.exit(rc)
     tier = sys.argv[1] if len(sys.argv) > 1 else "quick"
     seed = int(sys.argv[2]) if len(sys.argv) > 2 else 0
